@@ -370,6 +370,23 @@ def genattr(pm: ProgramModel, ctx: Ctx, mb: ModelBuilder) -> None:
             if pick == "hi":
                 return float(b)
             return 1.23456789 if a <= 1.23456789 <= b else a + (b - a) * 0.61803398875
+        def choices(population: Any, weights: Any = None, *, cum_weights: Any = None, k: int = 1) -> Any:
+            population = list(population)
+            calls.append(("choices", (population, None if weights is None else list(weights))))
+            if not population:
+                raise AbsRaise("IndexError: cannot choose from an empty population")
+            if weights is not None:
+                ws = list(weights)
+                if len(ws) != len(population):
+                    raise AbsRaise("ValueError: the number of weights does not match the population")
+                if sum(ws) <= 0:
+                    raise AbsRaise("ValueError: total of weights must be greater than zero")
+                pick = max(range(len(ws)), key=lambda i: ws[i])
+                return [population[pick]] * k
+            return [population[-1]] * k
+        it.native["random.choices"] = choices
+        it.native["random.sample"] = lambda population, k: list(population)[:k]
+        it.native["random.shuffle"] = lambda xs: None
         it.native["random.choice"] = choice
         it.native["random.randint"] = randint
         it.native["random.uniform"] = uniform
@@ -458,6 +475,9 @@ def genattr(pm: ProgramModel, ctx: Ctx, mb: ModelBuilder) -> None:
         "elements": (dom_of([], ["a", "b", "c"]), lambda v: v in ("a", "b", "c")),
         "numeric-looking-elements": (dom_of([], ["1", "2", "3"]), lambda v: isinstance(v, str) and v in ("1", "2", "3")),
         "int-range": (dom_of([(2, 9)], []), lambda v: v == ("randint", 2, 9)),
+        "int-range-of-one-number": (dom_of([(5, 5)], []), lambda v: v == ("randint", 5, 5)),
+        "two-ranges-of-one-number": (dom_of([(5, 5), (7, 7)], []), lambda v: v in (("randint", 5, 5), ("randint", 7, 7))),
+        "float-range-of-one-number": (dom_of([(0.5, 0.5)], []), lambda v: v == 0.5),
         "float-range": (dom_of([(0.5, 2.25)], []), lambda v: isinstance(v, float)),
         "mixed": (dom_of([(2, 9)], ["a"]), lambda v: v == "a" or v == ("randint", 2, 9)),
         "empty": (dom_of([], []), lambda v: v is None),
@@ -475,9 +495,9 @@ def genattr(pm: ProgramModel, ctx: Ctx, mb: ModelBuilder) -> None:
         elif not okf(v):
             bad2.append(f"value {v!r} is not drawn from the domain")
         for nm, a in calls:
-            if nm == "randint" and a != (2, 9):
+            if nm == "randint" and a != (2, 9) and key in ("int-range", "mixed"):
                 bad2.append(f"randint called with {a}, expected (min_value, max_value) = (2, 9)")
-            if nm == "uniform" and a != (0.5, 2.25):
+            if nm == "uniform" and a != (0.5, 2.25) and key == "float-range":
                 bad2.append(f"uniform called with {a}, expected (0.5, 2.25)")
             if nm == "uniform" and key == "int-range":
                 bad2.append("an integer range is sampled with uniform (float), not randint")
